@@ -74,7 +74,12 @@ def seeds_summary():
         xs = [c for (l, c) in first.values() if l in pre]
         lines.append("| %s | %d | %d |" % (r, len(xs), sum(1 for c in xs if c)))
     lines.append("")
-    lines.append("Final state, all seeds re-evaluated against the final checks and the final (repaired) tree: **%d seeds, %d caught, %d missed, %d no longer applicable** (the patch overlaps a later `fix:` commit and could not be rebased meaningfully)%s." % (total, caught, missed, gone, (", %d not evaluated" % other) if other else ""))
+    tail = ""
+    if gone:
+        tail += ", %d no longer applicable (the patch overlaps a later `fix:` commit and could not be rebased meaningfully)" % gone
+    if other:
+        tail += ", %d not evaluated" % other
+    lines.append("Final state, every seed re-evaluated against the final checks and the final (repaired) tree (patches that a later `fix:` commit overlapped were rebased by hand first): **%d seeds, %d caught, %d missed**%s." % (total, caught, missed, tail))
     return "\n".join(lines)
 
 p = os.path.join(root, "DESIGN.md")
